@@ -1010,7 +1010,7 @@ func (x *Exec) step(fr *Frame, st *State, ins ssa.Instruction) {
 		local := ""
 		if _, isArr := et.Underlying().(*types.Array); !ins.Heap && (!isArr || isUUID(et)) {
 			// a non-escaping local: only this frame can name it, so it gets private heap arrays
-			local = "L_" + smtName(relName(fr.fn)) + "_" + ins.Name()
+			local = "L_" + smtName(funcKey(fr.fn)) + "_" + ins.Name()
 		}
 		fr.regs[ins] = x.doAlloc(st, et, local)
 	case *ssa.FieldAddr:
